@@ -132,4 +132,8 @@ let opts_of_toks (t : string list) : dopt list =
       (match String.split_on_char ':' s with
        | [_; i; c] -> OColorAt (z_of_dec i, rgba_of_hex c)
        | _ -> failwith ("bad opt " ^ s))
+    else if String.length s > 3 && String.sub s 0 3 = "OJ:" then
+      (match String.split_on_char ':' s with
+       | [_; i; _; _; c] -> OColorAt (z_of_dec i, rgba_of_hex c)
+       | _ -> failwith ("bad opt " ^ s))
     else failwith ("bad opt " ^ s)) t
